@@ -11,12 +11,12 @@ fn nt_c05(m: &Model, classes: &std::collections::HashSet<&'static str>) -> bool 
 }
 
 fn case_small(t: &mut Tape, st: &mut Stats) -> Verdict {
-    let p = gen_program(t, GenCfg { functions: true, failures: false, max_depth: 4, max_stmts: 40, long_loops: false, probe_conditions: true });
+    let p = gen_program(t, GenCfg { functions: true, failures: false, max_depth: 4, max_stmts: 40, long_loops: false, probe_conditions: true, lib_calls: false });
     run_program(&p, t, st, "C05", nt_c05)
 }
 
 fn case_large(t: &mut Tape, st: &mut Stats) -> Verdict {
-    let p = gen_program(t, GenCfg { functions: true, failures: false, max_depth: 6, max_stmts: 120, long_loops: false, probe_conditions: false });
+    let p = gen_program(t, GenCfg { functions: true, failures: false, max_depth: 6, max_stmts: 120, long_loops: false, probe_conditions: false, lib_calls: false });
     run_program(&p, t, st, "C05", nt_c05)
 }
 
